@@ -1245,6 +1245,26 @@ def gen_simd_kernels(repo):
     sk = ' ; '.join('%s(%s)' % (c, ' '.join(a.split())) for c, a in calls if not c.startswith('_mm_set_epi8'))
     out += '/-- %s: horiz_convolution_one_row: every intrinsic / helper call with its arguments, in textual order -/\n' % f
     out += 'def u8x4_sse4_one_row_skeleton : String := "%s"\n\n' % sk.replace('"', '\\"')
+    # the four-row kernel of the same file
+    m = re.search(r'unsafe fn horiz_convolution_four_rows<const PRECISION: i32>\(.*?\n\}', src, re.S)
+    if not m:
+        raise TranslationError("%s: horiz_convolution_four_rows not found" % f)
+    body = re.sub(r'//[^\n]*', '', m.group(0))
+    masks = []
+    for a in re.finditer(r'let (mask\w*) = _mm_set_epi8\(([^;]*?)\);', body, re.S):
+        vals = [int(x) for x in a.group(2).replace('\n', ' ').split(',') if x.strip()]
+        if len(vals) != 16:
+            raise TranslationError("%s: mask %s does not have 16 entries" % (f, a.group(1)))
+        masks.append((a.group(1), list(reversed(vals))))
+    if [n for n, _ in masks] != ['mask_lo', 'mask_hi', 'mask']:
+        raise TranslationError("%s: expected the masks mask_lo, mask_hi, mask, found %s" % (f, [n for n, _ in masks]))
+    for n, v in masks:
+        out += '/-- %s: horiz_convolution_four_rows: shuffle mask %s, byte 0 first -/\n' % (f, n)
+        out += 'def u8x4_sse4_four_%s : List Int := [%s]\n\n' % (n, ', '.join(str(x) if x >= 0 else '(%d)' % x for x in v))
+    calls = re.findall(r'\b(_mm_\w+(?:::<\w+>)?|simd_utils::\w+|chunks_exact|remainder|first)\(([^()]*(?:\([^()]*\)[^()]*)*)\)', body)
+    sk = ' ; '.join('%s(%s)' % (c, ' '.join(a.split())) for c, a in calls if not c.startswith('_mm_set_epi8'))
+    out += '/-- %s: horiz_convolution_four_rows: every intrinsic / helper call with its arguments, in textual order -/\n' % f
+    out += 'def u8x4_sse4_four_rows_skeleton : String := "%s"\n\n' % sk.replace('"', '\\"')
     return out
 
 def gen_sizes(repo):
